@@ -147,6 +147,51 @@ Definition body_read_raw (s : stream) (buf : nat) (maxb : option nat) (clraw : o
   | Some cl => Some (body_read_env s buf maxb cl te)
   end.
 
+(* ---- error mapping ---- *)
+
+(* class names as they appear in gen/Gen.v errors_map *)
+Definition cls_RequestError : list N :=
+  [82; 101; 113; 117; 101; 115; 116; 69; 114; 114; 111; 114]%N.
+Definition cls_BodySizeError : list N :=
+  [66; 111; 100; 121; 83; 105; 122; 101; 69; 114; 114; 111; 114]%N.
+Definition cls_BodyParsingError : list N :=
+  [66; 111; 100; 121; 80; 97; 114; 115; 105; 110; 103; 69; 114; 114; 111; 114]%N.
+
+Fixpoint emap_get (m : list (list N * (Z * list N))) (cls : list N) : option Z :=
+  match m with
+  | [] => None
+  | (k, (code, _)) :: r => if str_eqb k cls then Some code else emap_get r cls
+  end.
+
+(* request.py:39   for err_cls in (err.__class__, except_class): out = errors_map.get(err_cls) ...
+   Some code = the mapped HTTPError is raised; None = the original exception escapes *)
+Definition raise_status (m : list (list N * (Z * list N))) (cls except_cls : list N) : option Z :=
+  match emap_get m cls with
+  | Some c => Some c
+  | None => emap_get m except_cls
+  end.
+
+(* Request.body as the application sees it: the body, the status of the mapped HTTPError, or the bare
+   exception escaping (a 500); [m] = config.errors_map as (class name, (status, text)) *)
+Inductive wres :=
+| WBody (r : bres)                      (* BDone *)
+| WStatus (code : Z) (s : stream)
+| WEscape (s : stream)
+| WValueError                           (* int(CONTENT_LENGTH) *)
+| WFuel.
+
+Definition wsgi_body (m : list (list N * (Z * list N))) (s : stream) (buf : nat) (maxb : option nat)
+           (clraw : option (list N)) (te : list N) : wres :=
+  match body_read_raw s buf maxb clraw te with
+  | None => WValueError
+  | Some (BDone b sp s') => WBody (BDone b sp s')
+  | Some (BTooLarge s') =>
+    match raise_status m cls_BodySizeError cls_RequestError with Some c => WStatus c s' | None => WEscape s' end
+  | Some (BParseErr s') =>
+    match raise_status m cls_BodyParsingError cls_RequestError with Some c => WStatus c s' | None => WEscape s' end
+  | Some BOutOfFuel => WFuel
+  end.
+
 (* ---- the specification side: legal chunked encodings ---- *)
 
 Definition CRLF : list N := [13; 10]%N.
@@ -194,6 +239,22 @@ Definition payload_of (cs : list chunk) : list N := flat_map c_data cs.
 
 (* ---- correspondence interface ---- *)
 
+(* an application-supplied errors_map: entries (class id, status); ids: 0 RequestError, 1 BodySizeError,
+   2 BodyParsingError, anything else: a class outside the family (ValueError) *)
+Definition cls_of_id (z : Z) : list N :=
+  match z with
+  | 0%Z => cls_RequestError
+  | 1%Z => cls_BodySizeError
+  | 2%Z => cls_BodyParsingError
+  | _ => [86; 97; 108; 117; 101; 69; 114; 114; 111; 114]%N
+  end.
+
+Definition dec_emap_item (l : list Z) : option ((list N * (Z * list N)) * list Z) :=
+  match l with
+  | k :: code :: r => Some ((cls_of_id k, (code, [])), r)
+  | _ => None
+  end.
+
 (* sub-inputs of a sequence: each one length-prefixed *)
 Fixpoint dec_subs (fuel : nat) (l : list Z) : list (list Z) :=
   match fuel with
@@ -208,7 +269,9 @@ Fixpoint dec_subs (fuel : nat) (l : list Z) : list (list Z) :=
 (* input: 0 ; buf ; has_max ; max ; data (len-prefixed) ; sched (len-prefixed)   -> bres
           1 ; bytes (len-prefixed)                                               -> int(b.strip(),16)
           2 ; has_cl ; buf ; has_max ; max ; cl_raw ; te ; data ; sched          -> bres through the _body glue
-                                                                                    ([8]: int(CONTENT_LENGTH) raises) *)
+                                                                                    ([8]: int(CONTENT_LENGTH) raises)
+          4 ; has_cl ; buf ; has_max ; max ; cl_raw ; te ; errors_map ; data ; sched
+                                                     -> the same with BaseRequest._raise over a supplied errors_map *)
 Definition corr_C05_one (inp : list Z) : list Z :=
   match inp with
   | 0%Z :: buf :: hm :: mx :: r =>
@@ -246,6 +309,36 @@ Definition corr_C05_one (inp : list Z) : list Z :=
         end
       | None => bad_input
       end
+    | None => bad_input
+    end
+    | None => bad_input
+    end
+  | 4%Z :: hcl :: buf :: hm :: mx :: r =>
+    match dec_str r with
+    | Some (clraw, rr) =>
+    match dec_str rr with
+    | Some (te, r0) =>
+    match dec_list dec_emap_item r0 with
+    | Some (em, r00) =>
+      match dec_str r00 with
+      | Some (data, r1) =>
+        match dec_list dec_nat_item r1 with
+        | Some (sc, _) =>
+          let maxb := if Z.eqb hm 0 then None else Some (Z.to_nat mx) in
+          match wsgi_body em (stream_init data sc) (Z.to_nat buf) maxb
+                          (if Z.eqb hcl 0 then None else Some clraw) te with
+          | WBody r => enc_bres r
+          | WStatus c s' => 5%Z :: c :: enc_reqs s'
+          | WEscape s' => 6%Z :: enc_reqs s'
+          | WValueError => [8%Z]
+          | WFuel => [9%Z]
+          end
+        | None => bad_input
+        end
+      | None => bad_input
+      end
+    | None => bad_input
+    end
     | None => bad_input
     end
     | None => bad_input
